@@ -9,7 +9,7 @@ use std::fs::{self, Metadata};
 use std::io::{stderr, Write};
 use std::time::{Duration, SystemTime, UNIX_EPOCH};
 
-use chrono::{DateTime, Local, Timelike};
+use chrono::{DateTime, Local, Timelike, Utc};
 
 #[cfg(unix)]
 use std::os::unix::fs::MetadataExt;
@@ -17,6 +17,28 @@ use std::os::unix::fs::MetadataExt;
 use super::{ComparableValue, Follow, Matcher, MatcherIO, WalkEntry};
 
 const SECONDS_PER_DAY: i64 = 60 * 60 * 24;
+
+/// The seconds from the Unix epoch to `time` (negative before it), rounded
+/// down, and the nanoseconds on top of them.
+pub fn seconds_since_epoch(time: SystemTime) -> (i128, u32) {
+    match time.duration_since(UNIX_EPOCH) {
+        Ok(after) => (i128::from(after.as_secs()), after.subsec_nanos()),
+        Err(e) => {
+            let before = e.duration();
+            match before.subsec_nanos() {
+                0 => (-i128::from(before.as_secs()), 0),
+                nanos => (-i128::from(before.as_secs()) - 1, 1_000_000_000 - nanos),
+            }
+        }
+    }
+}
+
+/// `time` as a calendar date, or `None` where the calendar ends before it
+/// (file systems keep times of hundreds of billions of years).
+pub fn to_datetime(time: SystemTime) -> Option<DateTime<Utc>> {
+    let (seconds, nanos) = seconds_since_epoch(time);
+    DateTime::from_timestamp(i64::try_from(seconds).ok()?, nanos)
+}
 
 fn get_time(matcher_io: &mut MatcherIO, today_start: bool) -> SystemTime {
     if today_start {
@@ -185,17 +207,10 @@ impl NewerTimeMatcher {
 
     fn matches_impl(&self, file_info: &WalkEntry) -> Result<bool, Box<dyn Error>> {
         let this_time = self.newer_time_type.get_file_time(file_info.metadata()?)?;
-        let timestamp = this_time
-            .duration_since(UNIX_EPOCH)
-            .unwrap_or_else(|e| e.duration());
+        let (seconds, nanos) = seconds_since_epoch(this_time);
+        let milliseconds = seconds * 1000 + i128::from(nanos / 1_000_000);
 
-        // timestamp.as_millis() return u128 but time is i64
-        // This may leave memory implications. :(
-        Ok(self.time
-            <= timestamp
-                .as_millis()
-                .try_into()
-                .expect("timestamp memory implications"))
+        Ok(i128::from(self.time) <= milliseconds)
     }
 }
 
